@@ -133,6 +133,9 @@ def run(ctx):
     ctx.guard('J-ALIAS', 'aliases', check_alias, ctx, w)
     ctx.floor('J-ALIAS', 1)
     ctx.floor('J-SHARED', 7)
+    ctx.rule('J-LAZY', 'a lazily computed private slot is read only in its accessor, after the accessor ran, or in the sentinel test that makes it run')
+    ctx.guard('J-LAZY', 'lazy slots', check_lazy, ctx, w)
+    ctx.floor('J-LAZY', 6)
     ctx.rule('J-PARTIAL', 'no container kept on an object is observable half-filled: not filled between yields, and incremental caches are read by key only')
     ctx.guard('J-PARTIAL', 'partial containers', partial.check_partial, ctx, w)
     ctx.floor('J-PARTIAL', 9)
@@ -766,6 +769,7 @@ def _root_attr(node):
 
 
 MUTANTS = [
+    ('get-tag-lazy-bound', 'elf/dynamic.py', "        offset = self._offset + n * self._tagsize\n", "        if self._num_tags != -1 and n >= self._num_tags:\n            raise IndexError(n)\n        offset = self._offset + n * self._tagsize\n", 'J-LAZY'),
     ('cie-regorder-alias', 'dwarf/callframe.py', "            reg_order = copy.copy(cie_decoded_table.reg_order)", "            reg_order = cie_decoded_table.reg_order", 'J-ALIAS'),
     ('accessor-nopos', 'elf/sections.py', "        entry = struct_parse(\n            self.structs.Elf_Sym,\n            self.stream,\n            stream_pos=entry_offset)\n        # Find the symbol name in the associated string table", "        entry = struct_parse(\n            self.structs.Elf_Sym,\n            self.stream)\n        # Find the symbol name in the associated string table", 'H-CUR'),
     ('pair-append', DI, "        self._cu_cache.insert(i, cu)", "        self._cu_cache.append(cu)", 'J-PAIR'),
@@ -783,3 +787,73 @@ MUTANTS = [
     ('lazy-mutates-header', 'dwarf/callframe.py', "        table = []\n\n        # Keeps a stack", "        table = []\n        self.header['decoded'] = True\n\n        # Keeps a stack", 'J-PURE'),
     ('abbrev-noseek', 'dwarf/abbrevtable.py', "        self.stream.seek(self.offset)\n", "", 'H-CUR'),
 ]
+
+
+def _is_sentinel(v):
+    if isinstance(v, ast.IfExp):
+        return _is_sentinel(v.body) or _is_sentinel(v.orelse)
+    return (isinstance(v, ast.Constant) and v.value is None) or U(v) == '-1'
+
+
+def check_lazy(ctx, w):
+    """Lazy slots are discovered, not listed: a private attribute that __init__ sets to a sentinel (None / -1) and exactly one other method
+    assigns.  Whether that method already ran is history; so any *other* function may read the slot only (a) in a pure sentinel test whose
+    sentinel branch calls something (`if self._x is None: self._make_x()`: the ensure idiom), (b) after such an ensure statement or after a
+    call of the accessor in the same function.  A function that branches on "already computed?" for any other purpose (a bound check that
+    exists only once the count is known) answers differently before and after the first call of the accessor."""
+    funcs = [f for f in w.model.library_funcs() if '/construct/' not in f.mod]
+    init = {}
+    for f in funcs:
+        if f.qual.endswith('.__init__'):
+            for n in walk_no_nested(f.node):
+                if isinstance(n, ast.Assign) and len(n.targets) == 1 and isinstance(n.targets[0], ast.Attribute) and isinstance(n.targets[0].value, ast.Name) and \
+                        n.targets[0].value.id == 'self' and n.targets[0].attr.startswith('_') and _is_sentinel(n.value):
+                    init.setdefault(n.targets[0].attr, set()).add(f.qual.rsplit('.', 1)[0])
+    n_slots = 0
+    for attr in sorted(init):
+        writers = {}
+        for f in funcs:
+            for n in walk_no_nested(f.node):
+                if isinstance(n, ast.Attribute) and n.attr == attr and isinstance(n.ctx, ast.Store) and not f.qual.endswith('__init__'):
+                    writers.setdefault(f.qual.split('.<locals>.')[0], f)
+        if len(writers) != 1:
+            continue
+        acc = list(writers)[0]
+        accname = acc.split('.')[-1]
+        n_slots += 1
+        bad = []
+        for f in funcs:
+            q = f.qual.split('.<locals>.')[0]
+            if q == acc or q.endswith('__init__'):
+                continue
+            par = {}
+            for x in ast.walk(f.node):
+                for c in ast.iter_child_nodes(x):
+                    par[id(c)] = x
+            loads = [n for n in walk_no_nested(f.node) if isinstance(n, ast.Attribute) and n.attr == attr and isinstance(n.ctx, ast.Load)]
+            if not loads:
+                continue
+            # ensure statements: if <pure sentinel test on the slot>: <body containing a call>   (no else)
+            ensures = []
+            for st in walk_no_nested(f.node):
+                if isinstance(st, ast.If) and not st.orelse and any(isinstance(c, ast.Call) for b in st.body for c in ast.walk(b)):
+                    t = st.test
+                    pure = (isinstance(t, ast.Compare) and len(t.ops) == 1 and isinstance(t.left, ast.Attribute) and t.left.attr == attr and
+                            isinstance(t.ops[0], (ast.Is, ast.Eq)) and _is_sentinel(t.comparators[0])) or \
+                           (isinstance(t, ast.UnaryOp) and isinstance(t.op, ast.Not) and isinstance(t.operand, ast.Attribute) and t.operand.attr == attr)
+                    if pure:
+                        ensures.append(st)
+            acc_calls = [c for c in walk_no_nested(f.node) if isinstance(c, ast.Call) and isinstance(c.func, ast.Attribute) and c.func.attr == accname]
+            for ld in loads:
+                ok = False
+                for e in ensures:
+                    if any(x is ld for x in ast.walk(e.test)) or ld.lineno > e.lineno:
+                        ok = True
+                if any((c.lineno, c.col_offset) <= (ld.lineno, ld.col_offset) for c in acc_calls):
+                    ok = True
+                if not ok:
+                    bad.append('%s:%d' % (q, ld.lineno))
+        ctx.ob('J-LAZY', 'slot ' + attr, 'read only in %s, after it, or in the sentinel test that runs it' % acc, not bad, got=bad[:4],
+               msg='a function other than the accessor branches on whether the lazily computed value exists yet: its answer differs before and '
+                   'after the first call of the accessor', sample='%s: accessor %s' % (attr, acc))
+    ctx.analysed['lazy_slots'] = n_slots
